@@ -63,7 +63,9 @@ def capture(S, out_module, filename):
             yield store
         finally:
             sys.stdout = old
-            store["text"] = buf.getvalue().rstrip("\n") or None
+            # verif.util.warning() also prints to stdout: keep the output proper
+            kept = [l for l in buf.getvalue().split("\n") if "Warning:" not in l]
+            store["text"] = "\n".join(kept).rstrip("\n") or None
             if filename is not None and os.path.exists(filename):
                 with open(filename) as f:
                     store["file"] = f.read()
@@ -98,6 +100,7 @@ def h_output(T, L, P, thorough):
         to_file = bool(S.choose("file", 2))
         cells = list(np.ndindex(*shape))
         avg_thresholds = None
+        use_ratio = False
         if axname == "location+thresholds":
             # a threshold metric along a data axis: the mean over the intervals is reported
             axname = "location"
@@ -117,7 +120,10 @@ def h_output(T, L, P, thorough):
             pl.axis = ax.Threshold()
             slices = [("thr", t1), ("thr", t2)]
         else:
-            m = metric.Mae()
+            # mae, or ratio = mean(fcst)/mean(obs), which is NaN for one input only when that
+            # input's mean observation is zero (the case -acc must count as 0 for that input alone)
+            use_ratio = bool(S.choose("metric", 2))
+            m = metric.Ratio() if use_ratio else metric.Mae()
             pl = out.Standard(m)
             pl.axis = ax.get(axname)
             if axname in ("location", "lat", "elev"):
@@ -147,6 +153,9 @@ def h_output(T, L, P, thorough):
                 d = [S.abs(o[c] - fc[c]) for c in sel]
                 per = [S.div(S.count(x < t for x in d) * 100.0, len(d)) for t in avg_thresholds]
                 return S.div(per[0] + per[1], 2.0)
+            if use_ratio:
+                den = ref.r_mean(S, [o[c] for c in sel])
+                return S.ite(den == 0, float("nan"), S.div(ref.r_mean(S, [fc[c] for c in sel]), den))
             return ref.r_mean(S, [S.abs(o[c] - fc[c]) for c in sel])
         want = [[score(f, sl) for f in range(2)] for sl in slices]
         if acc:
@@ -159,7 +168,7 @@ def h_output(T, L, P, thorough):
         # ---- placement, for every input of the path (symbolic)
         x, y, xname, ynames, descs = pl._get_x_y(D, pl.axis)
         S.prove("one-row-per-slice", len(x) == len(slices) and tuple(y.shape) == (len(slices), 2), detail=axname)
-        tag = "%s%s%s" % (axname, "/acc" if acc else "", "/mean-over-thresholds" if avg_thresholds else "")
+        tag = "%s%s%s%s" % (axname, "/acc" if acc else "", "/mean-over-thresholds" if avg_thresholds else "", "/ratio" if use_ratio else "")
         for i in range(len(slices)):
             for f in range(2):
                 S.prove("score-in-its-row-and-column", S.same(y[i, f], want[i][f]), twin=S.same(y[i, f], want[i][f] + 1), detail=tag)
@@ -167,6 +176,8 @@ def h_output(T, L, P, thorough):
                 list(ynames) == (legend if legend is not None else ["A.txt", "B.txt"]), detail=tag)
         # ---- emitted text: one representative per path with distinct scores
         flat = [want[i][f] for i in range(len(slices)) for f in range(2)]
+        if use_ratio and not acc:
+            return      # NaN scores print as 'nan'; the character check below is for numbers
         S.assume(S.all(S.isfinite(v) for v in flat))
         if S.symbolic and avg_thresholds is None:
             S.assume(S.all(S.not_(S.same(a, b)) for k, a in enumerate(flat) for b in flat[k + 1:]))
